@@ -3,8 +3,9 @@
 Fault enumeration (drivers E4 + E5 of DESIGN.md). A *shape* is a pipeline with one or two
 lena.flow.Cache elements (in a Source, in a Sequence, nested, in a Split branch given as a Sequence or
 as a tuple, or passed through lena.core.alter_sequence / Cache.alter_sequence), elements in front of,
-between and behind the caches taken from {logging callable, Slice, fill/compute accumulator}, a flow
-kind and a flow length n. A *history* is a sequence of runs over what the previous runs left in a
+between and behind the caches taken from {logging callable, Slice, fill/compute accumulator, in-place
+mutator, SetContext (an element without data; a cache may take its file name from it)}, a flow kind and
+a flow length n. A *history* is a sequence of runs over what the previous runs left in a
 private directory; all pipeline objects are rebuilt for every run (as a new process would). Every run
 is one of
 
@@ -15,7 +16,10 @@ is one of
     downslice m                   a Slice(m), m = 0..L, appended behind the pipeline stops consuming
     long                          (Split branch only) a complete run whose source is twice as long
 
-preceded by nothing, by recompute=True or by drop_cache() on all / one of the caches. All histories up
+preceded by nothing, by recompute=True or by drop_cache() on all / one of the caches. While runs whose
+consumer kept the generator after k >= 1 values are suspended, every next run is tried with them left
+alone, with them closed before it, and with them RESUMED after it and consumed to their end (a resumed
+run is judged as the whole run it is). All histories up
 to the depth of the tier are enumerated; every run is executed on the real code with an instrumented
 source (pull count) and logging elements (call counts) and judged by the non-deterministic reference
 model mc/ref/c18_model.py (which never looks at lena).
@@ -27,6 +31,7 @@ import os
 
 import lena.core
 import lena.flow
+import lena.meta
 
 from mc.core import Result, result_violations
 from mc.instrument import scratch_dir
@@ -42,13 +47,16 @@ RULE = ("every history (sequence of runs, each = interruption kind x interruptio
         "when it starts (so it must replay, recompute or drop) or when it is an interruption of a run "
         "that is writing a cache of a non-empty flow; runs are distinct by construction (shape + "
         "history prefix), sub-histories behind an identical (depth, directory snapshot, model state) "
-        "are explored once when de-duplication is on")
+        "are explored once when de-duplication is on; a suspended run that is resumed after a later run "
+        "and consumed to its end is one more (non-trivial) evaluation")
 ASSUMPTIONS = [
     "flows of 0..N picklable values: ints, (int, nested context dict) pairs, and a pool of falsy "
     "values (0, None, '', [], {}, False, 0.0, ()); values are compared by repr (type-aware)",
     "elements next to the caches are user callables (wrap each value), Slice(m) and a user fill/compute "
-    "accumulator; at most two Cache elements per pipeline; cache file names are plain (no {{context}} "
-    "templates, so Cache._set_context is not exercised)",
+    "accumulator, a user callable that changes its value in place, and lena.meta.SetContext (an element "
+    "without data); at most two Cache elements per pipeline; cache file names are plain or one "
+    "{{key}} template filled in by a SetContext of the same sequence (drop_cache() is then called "
+    "once the cache stands in that sequence: before, it does not know its file)",
     "Split placements have ONE branch and a buffer that holds the whole first-run flow (a Sequence with "
     "a Cache that is run once per block is documented in lena/core/split.py as unsupported); pulls on "
     "the source in front of a Split are not constrained, only elements inside the branch are",
@@ -60,7 +68,14 @@ ASSUMPTIONS = [
     "healthy output",
     "drop_cache() on a cache that does not exist raises OSError on this tree (its docstring says "
     "'pass otherwise'); the statement does not cover this and the harness tolerates it",
-    "an abandoned generator stays alive (not closed, not collected) during the rest of its history; "
+    "an abandoned generator stays alive (not closed, not collected) during the rest of its history, "
+    "until it is closed or resumed; a resumed run may show the flow that was stored when it started "
+    "or the one stored when it is resumed (both readings of 'the stored values'), and a cache it was "
+    "writing may afterwards hold its flow or what a later run stored there meanwhile; resumption "
+    "only after complete runs (every operation), in the thorough tier also after runs whose consumer "
+    "stopped and closed the generator; runs "
+    "that were suspended before their first value are never resumed (Cache.run decides by "
+    "cache_exists() when it is called, its docstring says so); "
     "de-duplicated exploration assumes that a rebuilt pipeline's behaviour depends only on its inputs "
     "and the directory content (every reported violation is re-executed sequentially from scratch)",
 ]
@@ -82,13 +97,18 @@ def _dom(tier):
 def describe(tier):
     d = _dom(tier)
     return ("flows of length 0..%d; pipeline shapes: %d (placements source, sequence, nested, split_seq, split_nested, "
-            "split_tuple, alter, cache_alter, alter_element; one or two caches), flow kinds ints for all "
+            "split_tuple, alter, cache_alter, alter_element; one or two caches; %d with SetContext elements, "
+            "plain and context-formatted cache names), flow kinds ints for all "
             "shapes and (int, context) / falsy pool for %d of them; all histories of <= depth[n] runs, "
             "depth by flow length n = %s, explored with merging of identical (depth, directory snapshot, "
             "model state); additionally all histories of <= %d runs for n <= %d without merging; every "
-            "interruption point k of every kind in every run"
-            % (d["N"], len(_shapes(tier)), sum(1 for sh in _shapes(tier) if len(_flowkinds(*sh[:2])) > 1),
-               json.dumps(d["depth"], sort_keys=True), d["plain_depth"], d["plain_N"]))
+            "interruption point k of every kind in every run; suspended runs (consumer kept the generator "
+            "after k >= 1 values) left alone, closed before, or resumed to their end after %s"
+            % (d["N"], len(_shapes(tier)), sum(1 for sh in _shapes(tier) if SC in sh[1]),
+               sum(1 for sh in _shapes(tier) if len(_flowkinds(*sh[:2])) > 1),
+               json.dumps(d["depth"], sort_keys=True), d["plain_depth"], d["plain_N"],
+               "every later complete or stopped-and-closed run" if tier == "thorough"
+               else "every later complete run"))
 
 
 F, G, F2 = ["f", "a"], ["f", "g"], ["f", "b"]
@@ -97,6 +117,20 @@ CA, CB = ["cache", "A"], ["cache", "B"]
 MUT = ["mut", "m"]
 # a second cache whose file name continues the first one's ("A.pkl" and "A.pkl.b.pkl"): different caches
 CB2 = ["cache", "A.pkl.b"]
+# an element without data: it sets the static context of its sequence and takes no part in the flow;
+# and a cache whose file name is formatted from that static context ("{{cn}}.pkl" -> "A.pkl")
+SC = ["setctx", "cn", "A"]
+CT = ["cache", "{{cn}}"]
+SC2 = ["setctx", "other", "x"]
+
+
+def _cache_file(elems, spec):
+    """The file a cache of the pipeline writes (templates filled in from the SetContext elements)."""
+    name = spec[1]
+    for sp in elems:
+        if sp[0] == "setctx":
+            name = name.replace("{{%s}}" % sp[1], sp[2])
+    return name + ".pkl"
 
 
 def _nest(els, p):
@@ -176,6 +210,20 @@ def _shapes(tier):
         out.append(("alter", elems, None))
         out.append(("cache_alter", elems, None))
     out.append(("alter_element", [CA], None))
+    # elements without data (SetContext) in front of, between and behind the other elements: the flow
+    # and the caches are what they are without them; a cache may take its file name from them
+    out.append(("source", [SC, F, CT, G], None))
+    out.append(("sequence", [F, SC, CA], None))
+    out.append(("split_seq", [SC, F, CA], "n"))
+    out.append(("split_seq", [F, SC, CT, G], "n"))
+    out.append(("split_tuple", [F, CA, SC], "n"))
+    out.append(("alter", [SC, F, CT], None))
+    if thorough:
+        out.append(("cache_alter", [F, CA, SC, G], None))
+        out.append(("nested", [SC, F, CT], None))
+        out.append(("split_nested", [SC, F, CA, G], "n"))
+        out.append(("split_seq", [SC, F, CT, F2, SC2, CB], "n"))
+        out.append(("source", [F, SC, CT, F2, CB, SC2], None))
     return out
 
 
@@ -332,6 +380,8 @@ def _make(spec, ev, recompute, caches):
         return Collect(spec[1], ev)
     if t == "raise":
         return Raiser(spec[1])
+    if t == "setctx":
+        return lena.meta.SetContext(spec[1], spec[2])
     if t == "cache":
         c = lena.flow.Cache(spec[1] + ".pkl", recompute=(len(caches) in recompute))
         caches.append(c)
@@ -346,6 +396,80 @@ def _bufsize(shape):
     if b == "none":
         return {"bufsize": None}
     return {"bufsize": max(shape["n"], 1)}
+
+
+class Suspended(object):
+    """A run whose consumer stopped and kept the generator: it can be closed (released) or resumed."""
+
+    def __init__(self, it, ev, out, take, r, started):
+        self.it, self.ev, self.out, self.take, self.r = it, ev, out, take, r
+        # the first value was received and the end was not seen: the generators of the run are alive
+        self.started = started
+
+    def close(self):
+        close = getattr(self.it, "close", None)
+        if close is not None:
+            close()
+
+    def resume(self):
+        """Consume the rest; the observation is the WHOLE run (both parts)."""
+        out = list(self.out)
+        outcome = "ok"
+        try:
+            for v in self.it:
+                out.append(self.take(v))
+        except Exception as e:  # the type is the outcome (R3)
+            outcome = "exc:" + type(e).__name__
+        self.it = None
+        return {"out": out, "outcome": outcome, "pulls": self.ev.pulls, "calls": dict(self.ev.calls)}
+
+
+def _start(shape, els, tail, src, drop, counters):
+    """Build the pipeline of a run from its new elements and start it. *drop* (the run's drop_cache()
+    calls) is called once: when every cache stands in the sequence that gives it its static context
+    (a file name formatted from the context is known from then on) and before anything is built or
+    run that looks for cache files."""
+    elems = shape["elems"]
+    pl = shape["placement"]
+    if pl == "source":
+        s = lena.core.Source(src, *(els + tail))
+        drop()
+        return s()
+    if pl == "sequence":
+        s = lena.core.Sequence(*(els + tail))
+        drop()
+        return s.run(src())
+    if pl == "nested":
+        p = M.cache_positions(elems)[-1]
+        s = lena.core.Source(src, lena.core.Sequence(*els[:p + 1]), *(els[p + 1:] + tail))
+        drop()
+        return s()
+    if pl in ("split_seq", "split_nested", "split_tuple"):
+        if pl == "split_seq":
+            branch = lena.core.Sequence(*els)
+        elif pl == "split_nested":
+            branch = _nest(els, M.cache_positions(elems)[0])
+        else:
+            branch = tuple(els)
+        drop()
+        sp = lena.core.Split([branch], **_bufsize(shape))
+        return lena.core.Source(src, sp, *tail)()
+    if pl in ("alter", "cache_alter", "alter_element"):
+        if pl == "alter_element":
+            seq = els[0]
+        else:
+            seq = lena.core.Sequence(*els)
+        drop()
+        if pl == "cache_alter":
+            new = lena.flow.Cache.alter_sequence(seq)
+        else:
+            new = lena.core.alter_sequence(seq)
+        if isinstance(new, lena.core.Source):
+            if counters is not None:
+                counters("hoisted_into_source")
+            return lena.core.Source(new, *tail)() if tail else new()
+        return lena.core.Sequence(new, *tail).run(src())
+    raise ValueError(pl)
 
 
 def execute(shape, run, r, keep, counters=None):
@@ -366,47 +490,17 @@ def execute(shape, run, r, keep, counters=None):
         rs = M.recompute_set(run, nc)
         els = [_make(s, ev, rs, caches) for s in elems]
         tail = [_make(s, ev, rs, caches) for s in M.run_tail(run)]
-        for c in sorted(M.drop_set(run, nc)):
-            try:
-                caches[c].drop_cache()
-            except OSError:
-                # nothing to drop (see ASSUMPTIONS)
-                if counters is not None:
-                    counters("drop_cache_raised_on_missing_file")
-        pl = shape["placement"]
-        if pl == "source":
-            it = lena.core.Source(src, *(els + tail))()
-        elif pl == "sequence":
-            it = lena.core.Sequence(*(els + tail)).run(src())
-        elif pl == "nested":
-            p = M.cache_positions(elems)[-1]
-            it = lena.core.Source(src, lena.core.Sequence(*els[:p + 1]), *(els[p + 1:] + tail))()
-        elif pl == "split_seq":
-            sp = lena.core.Split([lena.core.Sequence(*els)], **_bufsize(shape))
-            it = lena.core.Source(src, sp, *tail)()
-        elif pl == "split_nested":
-            sp = lena.core.Split([_nest(els, M.cache_positions(elems)[0])], **_bufsize(shape))
-            it = lena.core.Source(src, sp, *tail)()
-        elif pl == "split_tuple":
-            sp = lena.core.Split([tuple(els)], **_bufsize(shape))
-            it = lena.core.Source(src, sp, *tail)()
-        elif pl in ("alter", "cache_alter", "alter_element"):
-            if pl == "alter_element":
-                seq = els[0]
-            else:
-                seq = lena.core.Sequence(*els)
-            if pl == "cache_alter":
-                new = lena.flow.Cache.alter_sequence(seq)
-            else:
-                new = lena.core.alter_sequence(seq)
-            if isinstance(new, lena.core.Source):
-                if counters is not None:
-                    counters("hoisted_into_source")
-                it = lena.core.Source(new, *tail)() if tail else new()
-            else:
-                it = lena.core.Sequence(new, *tail).run(src())
-        else:
-            raise ValueError(pl)
+
+        def drop():
+            for c in sorted(M.drop_set(run, nc)):
+                try:
+                    caches[c].drop_cache()
+                except OSError:
+                    # nothing to drop (see ASSUMPTIONS)
+                    if counters is not None:
+                        counters("drop_cache_raised_on_missing_file")
+
+        it = _start(shape, els, tail, src, drop, counters)
         kind = run["kind"]
         if kind == "stop":
             for _ in range(run["k"]):
@@ -420,14 +514,14 @@ def execute(shape, run, r, keep, counters=None):
                 if close is not None:
                     close()
             else:
-                keep.append(it)
+                keep.append(Suspended(it, ev, out, take, r, run["k"] > 0 and outcome == "ok"))
         else:
             for v in it:
                 out.append(take(v))
     except Exception as e:  # the type is the outcome (R3)
         outcome = "exc:" + type(e).__name__
     it = None
-    return {"out": out, "outcome": outcome, "pulls": ev.pulls, "calls": ev.calls}
+    return {"out": out, "outcome": outcome, "pulls": ev.pulls, "calls": dict(ev.calls)}
 
 
 class Pipeline(object):
@@ -495,7 +589,7 @@ class Pipeline(object):
 
 def reusable(shape):
     return (shape["placement"] in ("source", "sequence", "nested", "split_seq", "split_nested", "split_tuple")
-            and all(sp[0] in ("f", "cache", "mut") for sp in shape["elems"]))
+            and all(sp[0] in ("f", "cache", "mut", "setctx") for sp in shape["elems"]))
 
 
 def _reuse_runs(shape):
@@ -586,7 +680,7 @@ def _restore(snap):
 def _canon_snapshot(snap, shape):
     """Snapshot with every file that is not a cache file renamed canonically (temporary files may have
     random names)."""
-    names = set(sp[1] + ".pkl" for sp in shape["elems"] if sp[0] == "cache")
+    names = set(_cache_file(shape["elems"], sp) for sp in shape["elems"] if sp[0] == "cache")
     known = tuple((fn, data) for fn, data in snap if fn in names)
     other = tuple(sorted(data for fn, data in snap if fn not in names))
     return known, other
@@ -671,6 +765,52 @@ def _abandons(run):
     return run["kind"] == "stop" and not run.get("close", True) and run["k"] > 0
 
 
+def _variants(live, base, tier):
+    """What happens to the suspended runs of the history around the next run: "" they stay as they are,
+    "release" they are closed before it, "resume" they are consumed to their end after it (oldest
+    first). Resumption after complete runs (with every operation); thorough tier: also after runs
+    whose consumer stopped after k values and closed the generator."""
+    if not live:
+        return [""]
+    if base["kind"] in ("complete", "long") or (tier == "thorough" and base["kind"] == "stop"
+                                                and base.get("close", True)):
+        return ["", "release", "resume"]
+    return ["", "release"]
+
+
+def _rerun(shape, h, r0, keep):
+    """Execute run h of a history again, unjudged, with what it did to the suspended runs."""
+    if h.get("release"):
+        _release(keep)
+    waiting = [g for g in keep if g.started]
+    execute(shape, h, r0, keep)
+    if h.get("then_resume"):
+        for g in waiting:
+            g.resume()
+            keep.remove(g)
+
+
+def _resume(res, shape, model, waiting, keep, hist):
+    """Resume the suspended runs *waiting* (oldest first) and judge each as a whole run. *hist* ends
+    with the run after which this happens. True = fine."""
+    for g in waiting:
+        obs = g.resume()
+        keep.remove(g)
+        res.count("suspended_runs_resumed")
+        verdict = model.step_resume(g.r, obs)
+        res.case(nontrivial=True, outcome=("resumed", obs["outcome"], M.canon(obs["out"]), obs["pulls"],
+                                           sorted(obs["calls"].items())))
+        if verdict is not None:
+            cause = dict(verdict["cause"])
+            cause["placement"] = shape["placement"]
+            observed = {"values": M.canon(obs["out"]), "outcome": obs["outcome"],
+                        "source_pulls": obs["pulls"], "element_calls": dict(sorted(obs["calls"].items()))}
+            res.violation({"shape": shape, "history": hist}, observed, verdict["expected"], cause,
+                          note=verdict.get("note", ""))
+            return False
+    return True
+
+
 def _explore(res, shape, model, snap, hist, depth, maxdepth, seen, tier, live):
     """Execute and judge every run that can follow *hist* (whose runs left the directory *snap* and the
     still-alive abandoned generators described by *live*), and go deeper.
@@ -681,16 +821,17 @@ def _explore(res, shape, model, snap, hist, depth, maxdepth, seen, tier, live):
     generators have been released (closed, as garbage collection would do at an arbitrary moment)."""
     last = depth == maxdepth - 1
     for base in list(_runs(shape, model, tier, last)):
-        for release in ((False, True) if live else (False,)):
+        for how in _variants(live, base, tier):
+            release, resume = how == "release", how == "resume"
             run = dict(base)
             keep = []
             if live:
                 _wipe()
                 for r0, h in enumerate(hist):
-                    if h.get("release"):
-                        _release(keep)
-                    execute(shape, h, r0, keep)
+                    _rerun(shape, h, r0, keep)
                     res.count("runs_reexecuted_for_live_generators")
+                if resume:
+                    run["then_resume"] = True
                 if release:
                     run["release"] = True
                     _release(keep)
@@ -701,6 +842,9 @@ def _explore(res, shape, model, snap, hist, depth, maxdepth, seen, tier, live):
                 _restore(snap)
                 before = snap
             m = model.copy()
+            if release:
+                m.released()
+            waiting = [g for g in keep if g.started]
             mine = []
             obs = execute(shape, run, depth, mine, res.count)
             keep.extend(mine)
@@ -712,11 +856,13 @@ def _explore(res, shape, model, snap, hist, depth, maxdepth, seen, tier, live):
             elif live:
                 res.count("runs_with_live_abandoned_generators")
             ok = _judge(res, shape, m, run, depth, obs, hist)
+            if ok and resume:
+                ok = _resume(res, shape, m, waiting, keep, hist + [run])
             if last:
                 res.count("histories_of_full_depth")
             if ok and not last:
                 newsnap = _snapshot()
-                newlive = () if release else live
+                newlive = () if (release or resume) else live
                 if _abandons(run):
                     newlive = newlive + ((depth, run["k"], run["op"], run["which"],
                                           _canon_snapshot(before, shape)),)
@@ -795,26 +941,35 @@ def replay(case):
                 run["which"] = int(run["which"])
             if run.get("release"):
                 _release(keep)
+                model.released()
+            waiting = [g for g in keep if g.started]
             obs = execute(shape, run, r, keep)
             if not _judge(res, shape, model, run, r, obs, hist):
                 break
             hist.append(run)
+            if run.get("then_resume") and not _resume(res, shape, model, waiting, keep, list(hist)):
+                break
         _release(keep)
     return result_violations(res)
 
 
 LEVEL_TEXT = ("fault enumeration: for every pipeline shape with one or two Cache elements (in a Source, "
-              "a Sequence, nested, a Split branch, or hoisted by alter_sequence), every flow of 0..3 "
+              "a Sequence, nested, a Split branch, or hoisted by alter_sequence; with and without "
+              "SetContext elements and context-formatted cache names), every flow of 0..3 "
               "(thorough 0..4) values of three kinds and every history of up to 3 (thorough 4) runs - each "
               "run being complete, or interrupted at every point k by the consumer stopping (closing or "
               "abandoning the generator), by the source raising, by a downstream element raising or by a "
-              "downstream Slice, optionally preceded by recompute=True or drop_cache() - the real code is "
+              "downstream Slice, optionally preceded by recompute=True or drop_cache(), suspended runs "
+              "being left alone, closed, or resumed to their end after a later run - the real code is "
               "executed in the directory the history left behind, with an instrumented source and logging "
               "elements, and judged by a non-deterministic reference model of what a cache may hold")
 LEVEL_NOTE = ("holds for the enumerated shapes, flows and histories only; sub-histories behind an identical "
               "(depth, directory snapshot, model state) are explored once (all histories of <= 2 (thorough "
-              "3) runs with n <= 2 are additionally enumerated without merging); process crashes (kill -9 "
-              "in the middle of a write), concurrent runs, context-templated file names and multi-branch "
-              "Splits are outside the alphabet")
-TECHNIQUE = ("exhaustive enumeration of run histories x interruption points on the real code over a private "
-             "directory, judged by a set-valued reference model of the cache states")
+              "3) runs with n <= 2 are additionally enumerated without merging); runs interleave only as "
+              "suspended generators that are resumed to their end after a later complete (thorough: or "
+              "stopped-and-closed) run; "
+              "process crashes (kill -9 in the middle of a write), runs in several threads or processes, "
+              "cache names formatted from the context of an outer sequence or of run-time values and "
+              "multi-branch Splits are outside the alphabet")
+TECHNIQUE = ("exhaustive enumeration of run histories x interruption points x fates of suspended runs on the "
+             "real code over a private directory, judged by a set-valued reference model of the cache states")
